@@ -142,6 +142,22 @@ pub fn run(ctx: &Ctx, st: &mut Stats) {
             }
         }
     });
+    // pool dates x bit-structured times (Timestamp) x pooled pictures
+    let bts = crate::pools::bit_times();
+    let dpool = crate::pools::date_pool();
+    let (bts_ref, dpool_ref) = (&bts, &dpool);
+    let bstep = ctx.tier.pick(9973, 13, 1);
+    ctx.par(st, "pool dates x bit-structured times (Timestamp) x pooled lossless pictures", true, 0, (dpool.len() * bts.len()) as i64 / bstep, |st, i, _| {
+        let i = (i * bstep) as usize;
+        let (y, m, d) = cal().of(dpool_ref[i / bts_ref.len()]);
+        let t = bts_ref[i % bts_ref.len()];
+        let v = V::Ts(y, m, d, (t / 3_600_000_000) as u32, (t / 60_000_000 % 60) as u32, (t / 1_000_000 % 60) as u32, (t % 1_000_000) as u32);
+        let ps = &pools[2];
+        if !ps.is_empty() {
+            let p = &ps[i % ps.len()];
+            st.eval(&R { v, pic: &p.text, f: &p.f, tag: "" }, check);
+        }
+    });
     // boundary + random values of every type x generated pictures (fresh pictures as well, thorough)
     let n = ctx.tier.pick(600, 800_000, ctx.big(16_000_000, 100_000_000));
     ctx.par(st, "boundary+random values x generated lossless pictures, all six types", false, 0, n, |st, i, rng| {
